@@ -6,6 +6,7 @@
   (contract of the engine, DESIGN §3).  No sign hypothesis on the weights.
 -/
 import Mathlib.Algebra.Ring.Defs
+import Mathlib.Algebra.Field.Defs
 import TjdModel.Autojac.Spec
 import TjdLemmas.AutojacLemmas
 import TjdProps.C01
@@ -68,5 +69,38 @@ theorem backward_constant_wrong_rows (E : Engine α) (tensors inputs : List Key)
     (backward E tensors inputs (constAgg w) chunk retain h).grads = h := by
   exact backward_aggregator_error E tensors inputs (constAgg w) chunk retain h hv hne Err.value
     (constAgg_fullJac_wrong E tensors inputs w hw)
+
+section mean
+variable {β : Type} [DivisionRing β]
+
+/-- `Mean()` is `Constant(1/m, …, 1/m)` with `m` the number of output scalars: `backward(tensors, Mean())` leaves
+    what `torch.autograd.backward(tensors, grad_tensors = (1/m) split per tensor)` leaves — the gradient of the mean
+    of all output scalars.  (`1/m` is the field's; for `m = 0` the call is not valid.) -/
+theorem backward_mean_eq_autograd (E : Engine β) (tensors inputs : List Key)
+    (chunk : Option Int) (retain : Bool) (h : Grads β)
+    (hv : ValidCall E tensors inputs chunk) (hne : inputs ≠ []) :
+    (backward E tensors inputs meanAgg chunk retain h).err = none ∧
+    ∀ k, (backward E tensors inputs meanAgg chunk retain h).grads k =
+      if k ∈ inputs then
+        accum (h k) (autogradDeposit E tensors
+          (List.replicate ((tensors.map E.numel).sum) (1 / (((tensors.map E.numel).sum : Nat) : β))) k)
+      else h k := by
+  have hm : meanAgg (fullJac E tensors inputs) =
+      constAgg (List.replicate ((tensors.map E.numel).sum) (1 / (((tensors.map E.numel).sum : Nat) : β)))
+        (fullJac E tensors inputs) := by
+    unfold meanAgg constAgg
+    rw [if_neg (by rw [fullJac_length]; simp), fullJac_length]
+  have hA := constAgg_fullJac E hv.wf tensors inputs
+    (List.replicate ((tensors.map E.numel).sum) (1 / (((tensors.map E.numel).sum : Nat) : β))) hv.rows_pos (by simp)
+  rw [← hm] at hA
+  have hs := backward_eq_spec E tensors inputs meanAgg chunk retain h hv hne _ hA
+    (deposits_length E hv.wf tensors inputs _)
+  refine ⟨hs.1, fun k => ?_⟩
+  rw [hs.2 k]
+  by_cases hk : k ∈ inputs
+  · rw [if_pos hk, if_pos hk, sliceOf_deposits E hv.wf tensors inputs _ k hk]
+  · rw [if_neg hk, if_neg hk]
+
+end mean
 
 end Tjd.Props.C05
